@@ -251,6 +251,102 @@ Proof.
     vm_compute. vm_compute in Hs. exact Hs.
 Qed.
 
+(** * a sufficient condition for the constants obligation (what a kernel check would have to
+    enforce to close F11b): the kernel's NameCollision normalisation lower-cases and strips
+    '_' but keeps the namespace dot, which is why a.foo / aFoo / a_foo pass it *)
+Lemma low_up : forall a, low (up a) = low a.
+Proof.
+  intro a. unfold up, low, is_lower, is_upper.
+  destruct ((97 <=? a) && (a <=? 122)) eqn:E1.
+  - apply andb_true_iff in E1. destruct E1 as [H1 H2]. apply N.leb_le in H1, H2.
+    assert (E2 : (65 <=? a - 32) && (a - 32 <=? 90) = true).
+    { apply andb_true_iff. split; apply N.leb_le; lia. }
+    rewrite E2.
+    assert (E3 : (65 <=? a) && (a <=? 90) = false).
+    { apply andb_false_iff. right. apply N.leb_gt. lia. }
+    rewrite E3. lia.
+  - reflexivity.
+Qed.
+
+Lemma low_low : forall a, low (low a) = low a.
+Proof.
+  intro a. unfold low, is_upper.
+  destruct ((65 <=? a) && (a <=? 90)) eqn:E1; [|rewrite E1; reflexivity].
+  apply andb_true_iff in E1. destruct E1 as [H1 H2]. apply N.leb_le in H1, H2.
+  assert (E3 : (65 <=? a + 32) && (a + 32 <=? 90) = false).
+  { apply andb_false_iff. right. apply N.leb_gt. lia. }
+  rewrite E3. reflexivity.
+Qed.
+
+Lemma to_lower_idem : forall s, to_lower (to_lower s) = to_lower s.
+Proof. induction s; simpl; [reflexivity|]. rewrite low_low. f_equal. exact IHs. Qed.
+
+Lemma to_lower_app : forall a b, to_lower (a ++ b) = to_lower a ++ to_lower b.
+Proof. intros. unfold to_lower. apply map_app. Qed.
+
+Lemma to_lower_fix_chunk : forall c, to_lower (fix_chunk c) = to_lower c.
+Proof.
+  intro c. unfold fix_chunk. destruct (all_upper_chunk c).
+  - destruct c as [|a r]; [reflexivity|]. simpl. rewrite low_up. f_equal. apply to_lower_idem.
+  - destruct c as [|a r]; [reflexivity|]. simpl. rewrite low_up. reflexivity.
+Qed.
+
+Lemma concat_chunks_aux : forall s cur, concat (chunks_aux s cur) = cur ++ filter is_alnum s.
+Proof.
+  induction s as [|c r IH]; intro cur; simpl.
+  - destruct cur; simpl; rewrite ?app_nil_r; reflexivity.
+  - destruct (is_alnum c).
+    + rewrite IH. rewrite <- app_assoc. reflexivity.
+    + destruct cur as [|x cur']; simpl.
+      * rewrite IH. reflexivity.
+      * rewrite IH. reflexivity.
+Qed.
+
+Lemma to_lower_concat_map : forall l, to_lower (concat (map fix_chunk l)) = to_lower (concat l).
+Proof.
+  induction l as [|c l IH]; simpl; [reflexivity|].
+  rewrite !to_lower_app, to_lower_fix_chunk, IH. reflexivity.
+Qed.
+
+(** the lower-cased camel name is the lower-cased alphanumeric content of the TL name *)
+Lemma to_lower_camel : forall s, to_lower (camel s) = to_lower (filter is_alnum s).
+Proof.
+  intro s. unfold camel, chunks. rewrite to_lower_concat_map, concat_chunks_aux. reflexivity.
+Qed.
+
+Definition norm_name (n : tlname) : str := to_lower (filter is_alnum (ns n ++ nm n)).
+
+Lemma str_eqb_nil : forall a, str_eqb a [] = true <-> a = [].
+Proof. destruct a; simpl; split; intro H; try discriminate; reflexivity. Qed.
+
+Lemma to_lower_const_name : forall n, to_lower (const_name n) = norm_name n.
+Proof.
+  intro n. unfold const_name, canonical_go_name, norm_name.
+  destruct (str_eqb (ns n) []) eqn:E.
+  - apply str_eqb_nil in E. rewrite E. simpl. apply to_lower_camel.
+  - rewrite to_lower_app, !to_lower_camel, filter_app, to_lower_app. reflexivity.
+Qed.
+
+Lemma nodupb_NoDup : forall l, nodupb l = true <-> NoDup l.
+Proof.
+  induction l as [|x r IH]; simpl.
+  - split; [constructor | reflexivity].
+  - rewrite andb_true_iff, negb_true_iff, mem_false, IH. split.
+    + intros [H1 H2]. constructor; assumption.
+    + intro H. inversion H; subst. split; assumption.
+Qed.
+
+(** distinct names after dropping every non-alphanumeric character (dot included) and case
+    give distinct Go constants *)
+Theorem consts_ok_if_normalized_distinct : forall names,
+  NoDup (map norm_name names) -> consts_ok names = true.
+Proof.
+  intros names H. unfold consts_ok. apply nodupb_NoDup.
+  apply (NoDup_map_inv to_lower).
+  rewrite map_map. erewrite map_ext; [exact H|].
+  intro n. apply to_lower_const_name.
+Qed.
+
 (** * the obligations that no Deconflicter protects are violated by accepted schemas (F11) *)
 From Coq Require Import String.
 Definition tl (a b : string) : tlname := TLName (lit a%string) (lit b%string).
@@ -281,6 +377,14 @@ Proof.
   split.
   - exists [Field (lit "string") AccNone false]. vm_compute. reflexivity.
   - exists [Field (lit "reset") AccNone false]. vm_compute. reflexivity.
+Qed.
+
+(** (e) `rs.t {n:#} f:n.0?int = rs.T n; @read rs.fn m:# rsTF:m.1?int => rs.T m;`: the accessor of
+    the request field rsTF and the result-mask accessor Set+RsT+F are both SetRsTF *)
+Theorem methods_nodup_refuted : exists fs raccs, methods_ok fs raccs = false.
+Proof.
+  exists [Field (lit "m") AccNone false; Field (lit "rsTF") AccFull false], [result_accessor (lit "RsT") [lit "F"]].
+  vm_compute. reflexivity.
 Qed.
 
 (** (d) a type named `unused`: Go type Unused next to the helper func Unused *)
